@@ -186,6 +186,19 @@ def run_case(case):
                 bad("%s raises %s on a permuted batch" % (mm, type(ex).__name__), "permutation", "%s %s" % (str(ex)[:200], desc0))
                 continue
             compare(mm, idx, got, "permutation")
+    # the same batch (same values) stored behind other memory layouts: a row is its values, not where they are kept
+    if kind in ("reg", "clf", "cluster", "poly", "nmf", "recip"):
+        for lname, Pl in K.layouts(P)[1:]:
+            yl = None if yP is None else dict(K.layouts(yP)).get({"Fortran order": "column of a C-ordered table", "strided window of a larger table": "every second element",
+                                                                  "negative strides": "negative stride"}.get(lname, "read-only"))
+            for mm in methods:
+                cnt += 1
+                try:
+                    got = _call(est, mm, Pl, kind, yl)
+                except Exception as ex:
+                    bad("%s raises %s on a non-contiguous batch" % (mm, type(ex).__name__), "memory layout", "%s layout=%s %s" % (str(ex)[:200], lname, desc0))
+                    continue
+                compare(mm, range(m), got, "memory layout: " + lname)
     # a large batch that covers every training row (hence every trained bucket / leaf / cell) plus rows outside the
     # training range: each row alone, and the two halves, must give the rows of the big-batch output
     if kind in ("reg", "clf", "cluster", "poly", "nmf"):
